@@ -15,6 +15,16 @@ From RsdnsModel.Proofs Require Import CursorSafe ListN LabelsSound LabelsComplet
 From Coq Require Import ZifyBool ZifyN ZifyNat.
 Open Scope N_scope.
 
+(* the value of a typed record (raw records have none: they never match a typed request's decode) *)
+Definition sval (d : sdata) : rdata := match d with SVal a => rdata_val a | SRaw _ => RD_Null [] end.
+Definition typed (x : srecord) : Prop := match sr_data x with SVal _ => True | SRaw _ => False end.
+(* the first OPT record of a list of records: its CLASS and TTL are the EDNS fields *)
+Fixpoint sem_first_opt (l : list srecord) : option opt :=
+  match l with
+  | [] => None
+  | x :: l' => if sr_type x =? T_OPT then Some (opt_from_msg (sr_class x) (sr_ttl x)) else sem_first_opt l'
+  end.
+
 Section E.
   Variable msg : list byte.
   Variables (q : squestion) (rs : list srecord) (an ns ar e1 e2 : N) (h : header) (ty : N).
@@ -30,6 +40,9 @@ Section E.
   Hypothesis Hh : h_qd h = 1 /\ h_an h = an /\ h_ns h = ns /\ h_ar h = ar.
   Hypothesis Hqr : flag_qr (h_flags h) = true.
   Hypothesis Htc : flag_tc (h_flags h) = false.
+  (* the records of the answer section are described by their values (authority and additional records may be
+     anything: OPT, types without a decoder, raw octets) *)
+  Hypothesis Htyped : Forall typed (firstn (N.to_nat an) rs).
 
   Definition text_of_labels (ls : list (N * list byte)) : list byte := join_labels (map snd ls).
   Definition qtext : list byte := text_of_labels (sq_labels q).
@@ -56,7 +69,7 @@ Section E.
 
   (* ---- the headers the chase gets, written over the semantic records ---- *)
   Definition sem_hdr (p : N) (x : srecord) (e k : N) : hdr :=
-    let rdl := lenN (rdata_enc (sr_data x)) in
+    let rdl := lenN (sdata_enc (sr_data x)) in
     Some (c_with_pos msg p, mkMarker p (e - 10 - rdl) (sr_type x) (sr_class x) (sr_ttl x) rdl (section_of (lin 1 an ns ar) k)).
   Fixpoint sem_hdrs (n : nat) (p : N) (l : list srecord) (ends : list N) (k : N) : list hdr :=
     match n, l, ends with
@@ -82,32 +95,33 @@ Section E.
       destruct (name_eq _ _); reflexivity.
     Qed.
 
-    Lemma data_of_sem p x e k : record_stands msg p x e -> sr_type x = ty ->
-      data_of msg ty r4 (sem_hdr p x e k) (rdata_val (sr_data x)).
+    Lemma data_of_sem p x e k : record_stands msg p x e -> typed x -> sr_type x = ty ->
+      data_of msg ty r4 (sem_hdr p x e k) (sval (sr_data x)).
     Proof.
-      intros Hs Hty. unfold sem_hdr, data_of, rd_data_at. cbn [m_rdlen].
+      intros Hs Htp Hty. unfold sem_hdr, data_of, rd_data_at. cbn [m_rdlen].
       assert (Hwc : whole msg (c_with_pos msg (a_type_off (ritem p x e) + 10))) by (split; reflexivity).
-      destruct (standing_record_decodes msg p x e _ Hs Hwc eq_refl) as (m & Em & Ed).
+      unfold typed in Htp. destruct (sr_data x) as [a|bs] eqn:Edat; [|contradiction]. cbn [sval].
+      destruct (standing_record_decodes msg p x e _ a Hs Edat Hwc eq_refl) as (m & Em & Ed). rewrite <- Edat.
       cbn [ritem a_rdlen] in Em. rewrite <- Hty. rewrite Em.
-      assert (Ecl : c_clone_with_pos (r_cur r4) (rdata_pos (mkMarker p (e - 10 - lenN (rdata_enc (sr_data x))) (sr_type x) (sr_class x) (sr_ttl x)
-                       (lenN (rdata_enc (sr_data x))) (section_of (lin 1 an ns ar) k))) = c_with_pos msg (a_type_off (ritem p x e) + 10)).
+      assert (Ecl : c_clone_with_pos (r_cur r4) (rdata_pos (mkMarker p (e - 10 - lenN (sdata_enc (sr_data x))) (sr_type x) (sr_class x) (sr_ttl x)
+                       (lenN (sdata_enc (sr_data x))) (section_of (lin 1 an ns ar) k))) = c_with_pos msg (a_type_off (ritem p x e) + 10)).
       { destruct Hw4 as [Hl Ho]. unfold c_clone_with_pos, rdata_pos, c_with_pos. rewrite Ho, Hl. cbn [m_type_off ritem a_type_off].
         unfold TYPE_TO_RDATA_OFFSET. reflexivity. }
       rewrite Ecl, Ed. reflexivity.
     Qed.
 
     (* the chase's filter over the headers = the semantic filter over the records *)
-    Lemma filter_sem : forall n p l ends k, rstands msg p l ends ->
+    Lemma filter_sem : forall n p l ends k, rstands msg p l ends -> Forall typed (firstn n l) ->
       cmp_ok msg (c_with_pos msg 12) (sem_hdrs n p l ends k) /\
       Forall2 (data_of msg ty r4) (filter (IM ty (c_with_pos msg 12)) (sem_hdrs n p l ends k))
-              (map (fun x => rdata_val (sr_data x)) (filter sem_match (firstn n l))) /\
+              (map (fun x => sval (sr_data x)) (filter sem_match (firstn n l))) /\
       map hdr_ttl (filter (IM ty (c_with_pos msg 12)) (sem_hdrs n p l ends k)) = map sr_ttl (filter sem_match (firstn n l)).
     Proof.
-      induction n as [|n IH]; intros p l ends k Hs; [cbn; split; [constructor|split; [constructor|reflexivity]]|].
+      induction n as [|n IH]; intros p l ends k Hs Htp; [cbn; split; [constructor|split; [constructor|reflexivity]]|].
       destruct l as [|x l]; destruct ends as [|e ends]; cbn [rstands] in Hs; try contradiction;
         [cbn; split; [constructor|split; [constructor|reflexivity]]|].
-      destruct Hs as [Hx Hrest]. cbn [sem_hdrs firstn filter].
-      destruct (IH e l ends (k + 1) Hrest) as (I1 & I2 & I3).
+      destruct Hs as [Hx Hrest]. cbn [firstn] in Htp. inversion Htp as [|? ? Htx Htl]; subst. cbn [sem_hdrs firstn filter].
+      destruct (IH e l ends (k + 1) Hrest Htl) as (I1 & I2 & I3).
       pose proof (is_match_sem p x e k ty Hx) as Hm. fold (sem_match x) in Hm. rewrite Hm.
       split.
       - constructor; [|exact I1]. unfold sem_hdr.
@@ -118,7 +132,7 @@ Section E.
                  ltac:(rewrite (whole_vis msg _ Hw1), (whole_vis msg _ Hw2); reflexivity) E1 E2).
       - destruct (sem_match x) eqn:Es.
         + cbn [map]. split; [constructor; [|exact I2]|cbn [hdr_ttl sem_hdr m_ttl]; f_equal; exact I3].
-          apply data_of_sem; [exact Hx|]. unfold sem_match in Es. lia.
+          apply data_of_sem; [exact Hx|exact Htx|]. unfold sem_match in Es. lia.
         + split; assumption.
     Qed.
   End WithReader.
@@ -139,25 +153,25 @@ Section E.
       unfold getN. replace (N.to_nat (j + 1)) with (S (N.to_nat j)) by lia. reflexivity.
   Qed.
 
-  (* standing records are of the 17 data types: none of them is an OPT record *)
-  Lemma stands_not_opt p x e : record_stands msg p x e -> (sr_type x =? T_OPT) = false.
+  (* the OPT record from_msg consults = the first OPT among the semantic records behind the answers *)
+  Lemma first_opt_align : forall l p ends k rs', rstands msg p l ends ->
+    (forall j, getN rs' (k + j) = getN (ritems p l ends) j) -> first_opt rs' (length l) k = sem_first_opt l.
   Proof.
-    intros (r & pre & post & _ & _ & _ & Hty & _). unfold rdata_type_ok in Hty.
-    destruct (sr_data x); unfold is_name_type, T_A, T_AAAA, T_NS, T_MD, T_MF, T_CNAME, T_MB, T_MG, T_MR, T_PTR, T_HINFO, T_WKS, T_MINFO, T_MX, T_NULL, T_SOA, T_TXT, T_OPT in *; lia.
-  Qed.
-
-  Lemma no_opt_stands : forall n p l ends k, rstands msg p l ends ->
-    (forall j, (j < n)%nat -> getN (ritems p l ends) (N.of_nat j) = getN (ritems p l ends) (N.of_nat j)) ->
-    forall rs', (forall j, getN rs' (k + j) = getN (ritems p l ends) j) -> first_opt rs' n k = None.
-  Proof.
-    induction n as [|n IH]; intros p l ends k Hs _ rs' Hal; [reflexivity|]. cbn [first_opt].
-    pose proof (Hal 0) as H0. rewrite N.add_0_r in H0. rewrite H0.
-    destruct l as [|x l]; destruct ends as [|e ends]; cbn [rstands] in Hs; try contradiction; [reflexivity|].
-    destruct Hs as [Hx Hrest]. cbn [ritems]. rewrite getN_cons_0. cbn [ritem a_type]. rewrite (stands_not_opt _ _ _ Hx).
-    apply (IH e l ends (k + 1) Hrest ltac:(intros; reflexivity)).
-    intro j. cbn [ritems] in Hal. replace (k + 1 + j) with (k + (j + 1)) by lia. rewrite (Hal (j + 1)).
+    induction l as [|x l IH]; intros p ends k rs' Hs Hal; [reflexivity|].
+    destruct ends as [|e ends]; cbn [rstands] in Hs; [contradiction|]. destruct Hs as [Hx Hrest].
+    cbn [length first_opt sem_first_opt]. pose proof (Hal 0) as H0. rewrite N.add_0_r in H0. cbn [ritems] in H0. rewrite H0.
+    change (getN (ritem p x e :: ritems e l ends) 0) with (Some (ritem p x e)). cbn [ritem a_type a_class a_ttl].
+    destruct (sr_type x =? T_OPT); [reflexivity|].
+    apply (IH e ends (k + 1) rs' Hrest). intro j. cbn [ritems] in Hal. replace (k + 1 + j) with (k + (j + 1)) by lia. rewrite (Hal (j + 1)).
     unfold getN. replace (N.to_nat (j + 1)) with (S (N.to_nat j)) by lia. reflexivity.
   Qed.
+
+  (* the 12-bit response code, on the semantic records *)
+  Definition sem_rcode : N :=
+    match sem_first_opt (skipn (N.to_nat an) rs) with
+    | Some o => rcode_extended (flag_rcode (h_flags h)) (opt_ext o)
+    | None => flag_rcode (h_flags h)
+    end.
 
   Lemma stands_skip : forall m p l ends, rstands msg p l ends ->
     exists p', rstands msg p' (skipn m l) (skipn m ends) /\
@@ -165,28 +179,35 @@ Section E.
   Proof.
     induction m as [|m IH]; intros p l ends Hs; [exists p; split; [exact Hs|intro j; reflexivity]|].
     destruct l as [|x l]; destruct ends as [|e ends]; cbn [rstands] in Hs; try contradiction.
-    - exists p. cbn [skipn]. split; [exact I|]. intro j. cbn [ritems]. unfold getN. destruct (N.to_nat _), (N.to_nat j); reflexivity.
+    - exists p. cbn [skipn]. split; [exact I|]. intro j. cbn [ritems]. unfold getN.
+      destruct (N.to_nat (N.of_nat (S m) + j)); destruct (N.to_nat j); reflexivity.
     - destruct Hs as [_ Hrest]. destruct (IH e l ends Hrest) as (p' & S' & G'). exists p'. cbn [skipn]. split; [exact S'|].
       intro j. cbn [ritems]. rewrite <- G'. unfold getN. replace (N.to_nat (N.of_nat (S m) + j)) with (S (N.to_nat (N.of_nat m + j))) by lia. reflexivity.
   Qed.
 
+  Lemma the_rcode_sem rends : rstands msg e1 rs rends -> the_rcode an ns ar (ritems e1 rs rends) h = sem_rcode.
+  Proof.
+    intro Sr. unfold the_rcode, the_opt, sem_rcode.
+    destruct (stands_skip (N.to_nat an) e1 rs rends Sr) as (p' & S' & G').
+    assert (Hl : length (skipn (N.to_nat an) rs) = N.to_nat (ns + ar)) by (rewrite skipn_length; unfold lenN in Hcnt; lia).
+    rewrite <- Hl. rewrite (first_opt_align _ p' _ an (ritems e1 rs rends) S'); [reflexivity|].
+    intro j. rewrite <- G'. f_equal. lia.
+  Qed.
+
   (* ---- the theorem ---- *)
   Theorem from_msg_direct_answers x xs :
-    filter sem_match (firstn (N.to_nat an) rs) = x :: xs -> flag_rcode (h_flags h) = 0 ->
+    filter sem_match (firstn (N.to_nat an) rs) = x :: xs -> sem_rcode = 0 ->
     from_msg msg ty =
     Ok (mkRRset qtext (sq_class q)
           (fold_left N.min (map sr_ttl (x :: xs)) 4294967295)
-          (map (fun y => rdata_val (sr_data y)) (x :: xs))).
+          (map (fun y => sval (sr_data y)) (x :: xs))).
   Proof.
     intros Hhits Hrc0.
     destruct (message_parsed msg 1 an ns ar [q] rs e1 e2 Hlen H12 Hq Hr eq_refl Hcnt ltac:(lia) Ban Bns Bar)
       as (qends & rends & Hp & L1 & L2 & Sq & Sr).
     destruct qends as [|qe qends]; [cbn in L1; discriminate|].
     destruct (from_msg_spec msg 1 an ns ar _ _ e1 e2 Hp L1 L2 h Hrh Hh ty (qitem 12 q qe) eq_refl eq_refl Hqr Htc) as (r4 & Hw4 & E).
-    assert (Hrc : the_rcode an ns ar (ritems e1 rs rends) h = 0).
-    { unfold the_rcode, the_opt. destruct (stands_skip (N.to_nat an) e1 rs rends Sr) as (p' & S' & G').
-      rewrite (no_opt_stands (N.to_nat (ns + ar)) p' _ _ an S' ltac:(intros; reflexivity) (ritems e1 rs rends)); [exact Hrc0|].
-      intro j. rewrite <- G'. f_equal. lia. }
+    assert (Hrc : the_rcode an ns ar (ritems e1 rs rends) h = 0) by (rewrite (the_rcode_sem rends Sr); exact Hrc0).
     rewrite E. rewrite Hrc. cbn [N.eqb negb]. cbv zeta. cbn [a_class qitem].
     assert (Hlr : length rends = length rs).
     { clear - Sr. revert Sr. generalize e1. generalize rends. induction rs as [|y l IH]; intros ends0 p; destruct ends0 as [|e ends]; cbn [rstands]; try tauto.
@@ -194,7 +215,7 @@ Section E.
     assert (Hal : answer_headers msg 1 an ns ar (qitems 12 [q] (qe :: qends)) (ritems e1 rs rends) e2 = sem_hdrs (N.to_nat an) e1 rs rends 0).
     { unfold answer_headers. apply hdrs_align; [exact L1|intro j; reflexivity| |exact Hlr]. unfold lenN in Hcnt. lia. }
     rewrite Hal.
-    destruct (filter_sem r4 Hw4 (N.to_nat an) e1 rs rends 0 Sr) as (F1 & F2 & F3). rewrite Hhits in F2, F3.
+    destruct (filter_sem r4 Hw4 (N.to_nat an) e1 rs rends 0 Sr Htyped) as (F1 & F2 & F3). rewrite Hhits in F2, F3.
     set (hs := sem_hdrs (N.to_nat an) e1 rs rends 0) in *.
     pose proof (live_le_length hs) as Hlive.
     rewrite (chase_returns_matches msg ty (sq_class q) r4 (c_with_pos msg 12) hs (c_with_pos msg 12) hs
@@ -206,14 +227,14 @@ Section E.
   (* a positioned record: start offset, record, end offset, index; None once consumed by the chase *)
   Definition prec : Type := (N * srecord * N * N)%type.
   Definition phdr (o : option prec) : hdr := match o with Some (p, x, e, k) => sem_hdr p x e k | None => None end.
-  Definition pstands (o : option prec) : Prop := match o with Some (p, x, e, _) => record_stands msg p x e | None => True end.
+  Definition pstands (o : option prec) : Prop := match o with Some (p, x, e, _) => record_stands msg p x e /\ typed x | None => True end.
   (* owner equals the current name t (case-insensitively), type as wanted, class of the question *)
   Definition smatch (want : N) (t : list byte) (o : option prec) : bool :=
     match o with
     | Some (_, x, _, _) => name_eq (text_of_labels (sr_labels x)) t && ((sr_type x =? want) && (sr_class x =? sq_class q))
     | None => false
     end.
-  Definition pval (o : option prec) : rdata := match o with Some (_, x, _, _) => rdata_val (sr_data x) | None => RD_A 0 end.
+  Definition pval (o : option prec) : rdata := match o with Some (_, x, _, _) => sval (sr_data x) | None => RD_A 0 end.
   Definition pttl (o : option prec) : N := match o with Some (_, x, _, _) => sr_ttl x | None => 0 end.
   Fixpoint precs (n : nat) (p : N) (l : list srecord) (ends : list N) (k : N) : list (option prec) :=
     match n, l, ends with
@@ -222,10 +243,10 @@ Section E.
     end.
   Lemma precs_hdrs : forall n p l ends k, map phdr (precs n p l ends k) = sem_hdrs n p l ends k.
   Proof. induction n as [|n IH]; intros p l ends k; [reflexivity|]. destruct l, ends; try reflexivity. cbn [precs sem_hdrs map phdr]. f_equal. apply IH. Qed.
-  Lemma precs_stand : forall n p l ends k, rstands msg p l ends -> Forall pstands (precs n p l ends k).
+  Lemma precs_stand : forall n p l ends k, rstands msg p l ends -> Forall typed (firstn n l) -> Forall pstands (precs n p l ends k).
   Proof.
-    induction n as [|n IH]; intros p l ends k Hs; [constructor|]. destruct l as [|x l]; destruct ends as [|e ends]; cbn [rstands] in Hs; try contradiction; [constructor|].
-    destruct Hs as [Hx Hrest]. cbn [precs]. constructor; [exact Hx|apply IH; exact Hrest].
+    induction n as [|n IH]; intros p l ends k Hs Htp; [constructor|]. destruct l as [|x l]; destruct ends as [|e ends]; cbn [rstands] in Hs; try contradiction; [constructor|].
+    destruct Hs as [Hx Hrest]. cbn [firstn] in Htp. inversion Htp; subst. cbn [precs]. constructor; [split; assumption|apply IH; assumption].
   Qed.
 
   (* the name at offset pn decodes to the text t *)
@@ -239,8 +260,8 @@ Section E.
       filter (smatch ty t) (pre ++ Some (p, x, e, k) :: post) = [] ->
       Forall (fun o => smatch T_CNAME t o = false) pre ->
       smatch T_CNAME t (Some (p, x, e, k)) = true ->
-      sr_data x = A_Name T_CNAME ls ->
-      schain (e - lenN (rdata_enc (sr_data x))) (join_labels ls) (pre ++ None :: post) pn' t' os' ->
+      sr_data x = SVal (A_Name T_CNAME ls) ->
+      schain (e - lenN (sdata_enc (sr_data x))) (join_labels ls) (pre ++ None :: post) pn' t' os' ->
       schain pn t (pre ++ Some (p, x, e, k) :: post) pn' t' os'.
 
   Section WithReader2.
@@ -252,7 +273,7 @@ Section E.
       IM want (c_with_pos msg pn) (phdr o) = smatch want t o.
     Proof.
       intros [c2 E2] Hs. destruct o as [[[[p x] e] k]|]; [|reflexivity]. cbn [phdr pstands smatch] in *.
-      destruct Hs as (r & pre & post & Hn & _). unfold sem_hdr, is_match. cbn [m_rtype m_rclass].
+      destruct Hs as [(r & pre & post & Hn & _) _]. unfold sem_hdr, is_match. cbn [m_rtype m_rclass].
       destruct (stands_decodes _ _ _ Hn) as [c1 E1].
       assert (Hw1 : whole msg (c_with_pos msg p)) by (split; reflexivity).
       assert (Hw2 : whole msg (c_with_pos msg pn)) by (split; reflexivity).
@@ -265,7 +286,7 @@ Section E.
     Proof.
       intros [c2 E2] Hs. induction Hs as [|o os Ho _ IH]; [constructor|]. cbn [map]. constructor; [|exact IH].
       destruct o as [[[[p x] e] k]|]; [|exact I]. cbn [phdr pstands] in *. unfold sem_hdr.
-      destruct Ho as (r & pre & post & Hn & _). destruct (stands_decodes _ _ _ Hn) as [c1 E1].
+      destruct Ho as [(r & pre & post & Hn & _) _]. destruct (stands_decodes _ _ _ Hn) as [c1 E1].
       assert (Hw1 : whole msg (c_with_pos msg p)) by (split; reflexivity).
       assert (Hw2 : whole msg (c_with_pos msg pn)) by (split; reflexivity).
       eexists. apply (nameref_eq_is_decoded_eq msg Heap _ _ _ _ _ _ (whole_cwf msg _ Hw1) (whole_cwf msg _ Hw2)
@@ -286,18 +307,20 @@ Section E.
       intro Hs. induction Hs as [|o os Ho _ [IH1 IH2]]; [split; [constructor|reflexivity]|]. cbn [filter].
       destruct (smatch ty t o) eqn:Em; [|split; assumption]. cbn [map]. destruct o as [[[[p x] e] k]|]; [|discriminate].
       cbn [phdr pval pttl pstands smatch] in *. split; [constructor; [|exact IH1]|cbn [hdr_ttl sem_hdr m_ttl]; f_equal; exact IH2].
-      apply (data_of_sem r4 Hw4); [exact Ho|lia].
+      destruct Ho as [Ho1 Ho2]. apply (data_of_sem r4 Hw4); [exact Ho1|exact Ho2|lia].
     Qed.
 
     (* the target of a standing CNAME record: the name at its data offset decodes to the text of its
        value, and that is where the chase continues *)
-    Lemma cname_target p x e k : record_stands msg p x e -> sr_type x = T_CNAME ->
-      exists ls, sr_data x = A_Name T_CNAME ls /\ decodes (e - lenN (rdata_enc (sr_data x))) (join_labels ls) /\
+    Lemma cname_target p x e k : record_stands msg p x e -> typed x -> sr_type x = T_CNAME ->
+      exists ls, sr_data x = SVal (A_Name T_CNAME ls) /\ decodes (e - lenN (sdata_enc (sr_data x))) (join_labels ls) /\
         forall c mk, sem_hdr p x e k = Some (c, mk) ->
-          c_clone_with_pos (r_cur r4) (rdata_pos mk) = c_with_pos msg (e - lenN (rdata_enc (sr_data x))).
+          c_clone_with_pos (r_cur r4) (rdata_pos mk) = c_with_pos msg (e - lenN (sdata_enc (sr_data x))).
     Proof.
-      intros (r & pre & post & Hn & Hm & Hpre & Hty & Ha & Bt & Bc & Bl & Bd & ->) Ht. rewrite Ht in Hty.
-      unfold rdata_type_ok in Hty. destruct (sr_data x) as [a|a|t ls|cpu os|a pr bm|rm em|pf ex|b|mn rn s rf rt ex mi|ss] eqn:Ed;
+      intros (r & pre & post & Hn & Hm & Hpre & Hok & Bt & Bc & Bl & Bd & ->) Htp Ht. rewrite Ht in Hok.
+      unfold typed in Htp. destruct (sr_data x) as [av|bs] eqn:Edv; [|contradiction]. cbn [sdata_ok sdata_enc] in *.
+      apply Bool.andb_true_iff in Hok. destruct Hok as [Hty Ha].
+      unfold rdata_type_ok in Hty. destruct av as [a|a|t ls|cpu os|a pr bm|rm em|pf ex|b|mn rn s rf rt ex mi|ss] eqn:Ed;
         unfold T_CNAME, T_A, T_AAAA, T_HINFO, T_WKS, T_MINFO, T_MX, T_NULL, T_SOA, T_TXT in Hty; try (exfalso; lia).
       assert (t = T_CNAME) by (unfold T_CNAME; lia). subst t. exists ls. split; [reflexivity|].
       cbn [rdata_enc ardata_ok] in *. rewrite name_enc_is_wire in *. destruct (name_ok_split _ Ha) as [Hok Hw].
@@ -315,7 +338,7 @@ Section E.
         + exact Hw.
       - intros c mk Hsh. unfold sem_hdr in Hsh. inversion Hsh; subst. destruct Hw4 as [Hl Ho].
         unfold c_clone_with_pos, rdata_pos, c_with_pos. rewrite Ho, Hl. cbn [m_type_off]. unfold TYPE_TO_RDATA_OFFSET. f_equal.
-        rewrite Ed. cbn [rdata_enc]. change (name_enc ls) with (wire_encode ls). lia.
+        rewrite Edv. cbn [sdata_enc rdata_enc]. change (name_enc ls) with (wire_encode ls). lia.
     Qed.
 
     (* the semantic chain is the chain the chase follows *)
@@ -329,13 +352,13 @@ Section E.
         { apply Forall_app in Hs. destruct Hs as [A B]. inversion B; subst. tauto. }
         destruct Hs1 as (Sp & Sx & Spo).
         assert (Htcn : sr_type x = T_CNAME) by (cbn [smatch] in Hm; lia).
-        destruct (cname_target p x e k Sx Htcn) as (ls' & Ed & Hdec & Hclone).
+        destruct Sx as [Sx1 Sx2]. destruct (cname_target p x e k Sx1 Sx2 Htcn) as (ls' & Ed & Hdec & Hclone).
         assert (ls' = ls) by congruence. subst ls'.
         assert (Hs' : Forall pstands (pre ++ None :: post)) by (apply Forall_app; split; [exact Sp|constructor; [exact I|exact Spo]]).
         destruct (IH Hdec Hs') as (C1 & C2 & C3). split; [|split; assumption].
         rewrite map_app. cbn [map phdr].
         set (c0 := c_with_pos msg p).
-        set (mk0 := mkMarker p (e - 10 - lenN (rdata_enc (sr_data x))) (sr_type x) (sr_class x) (sr_ttl x) (lenN (rdata_enc (sr_data x))) (section_of (lin 1 an ns ar) k)).
+        set (mk0 := mkMarker p (e - 10 - lenN (sdata_enc (sr_data x))) (sr_type x) (sr_class x) (sr_ttl x) (lenN (sdata_enc (sr_data x))) (section_of (lin 1 an ns ar) k)).
         change (sem_hdr p x e k) with (Some (c0, mk0)).
         apply cok_hop.
         + pose proof (cmp_ok_at pn t _ Hd Hs) as Hc. rewrite map_app in Hc. cbn [map phdr] in Hc. exact Hc.
@@ -344,7 +367,7 @@ Section E.
         + apply Forall_forall. intros hh Hin. apply in_map_iff in Hin. destruct Hin as (o & <- & Hin).
           rewrite (is_match_at pn t T_CNAME o Hd); [rewrite Forall_forall in Hpre; apply Hpre; exact Hin|].
           rewrite Forall_forall in Sp. apply Sp; exact Hin.
-        + pose proof (is_match_at pn t T_CNAME (Some (p, x, e, k)) Hd Sx) as Him. cbn [phdr] in Him.
+        + pose proof (is_match_at pn t T_CNAME (Some (p, x, e, k)) Hd (conj Sx1 Sx2)) as Him. cbn [phdr] in Him.
           rewrite Hm in Him. exact Him.
         + rewrite (Hclone c0 mk0 eq_refl). rewrite map_app in C1. cbn [map phdr] in C1. exact C1.
     Qed.
@@ -355,15 +378,15 @@ Section E.
   Proof.
     induction l as [|x l IH]; intros p ends ends' H1 H2; destruct ends as [|e ends]; destruct ends' as [|e' ends']; cbn [rstands] in *; try contradiction; [reflexivity|].
     destruct H1 as [S1 T1]. destruct H2 as [S2 T2].
-    destruct S1 as (r & pre1 & post1 & Hn1 & _ & _ & _ & _ & _ & _ & _ & _ & E1).
-    destruct S2 as (r' & pre2 & post2 & Hn2 & _ & _ & _ & _ & _ & _ & _ & _ & E2).
+    destruct S1 as (r & pre1 & post1 & Hn1 & _ & _ & _ & _ & _ & _ & _ & E1).
+    destruct S2 as (r' & pre2 & post2 & Hn2 & _ & _ & _ & _ & _ & _ & _ & E2).
     destruct Hn1 as (_ & R1 & _). destruct Hn2 as (_ & R2 & _).
     pose proof (resume_at_det msg _ _ R1 _ R2) as Hrr. subst r'. subst e e'.
     f_equal. eapply IH; eassumption.
   Qed.
 
   (* ---- from_msg follows the semantic chain ---- *)
-  Lemma from_msg_is_sem_chase rends : rstands msg e1 rs rends -> flag_rcode (h_flags h) = 0 ->
+  Lemma from_msg_is_sem_chase rends : rstands msg e1 rs rends -> sem_rcode = 0 ->
     exists r4, whole msg (r_cur r4) /\
       from_msg msg ty =
       let os0 := precs (N.to_nat an) e1 rs rends 0 in
@@ -377,10 +400,7 @@ Section E.
     assert (rends' = rends) by (eapply rstands_unique; eassumption). subst rends'.
     destruct qends as [|qe qends]; [cbn in L1; discriminate|].
     destruct (from_msg_spec msg 1 an ns ar _ _ e1 e2 Hp L1 L2 h Hrh Hh ty (qitem 12 q qe) eq_refl eq_refl Hqr Htc) as (r4 & Hw4 & E).
-    assert (Hrc : the_rcode an ns ar (ritems e1 rs rends) h = 0).
-    { unfold the_rcode, the_opt. destruct (stands_skip (N.to_nat an) e1 rs rends Sr) as (p' & S' & G').
-      rewrite (no_opt_stands (N.to_nat (ns + ar)) p' _ _ an S' ltac:(intros; reflexivity) (ritems e1 rs rends)); [exact Hrc0|].
-      intro j. rewrite <- G'. f_equal. lia. }
+    assert (Hrc : the_rcode an ns ar (ritems e1 rs rends) h = 0) by (rewrite (the_rcode_sem rends Sr); exact Hrc0).
     exists r4. split; [exact Hw4|]. rewrite E. rewrite Hrc. cbn [N.eqb negb]. cbv zeta. cbn [a_class qitem].
     assert (Hlr : length rends = length rs).
     { clear - Sr. revert Sr. generalize e1. generalize rends. induction rs as [|y l IH]; intros ends0 p; destruct ends0 as [|e ends]; cbn [rstands]; try tauto.
@@ -390,17 +410,30 @@ Section E.
     rewrite Hal, <- precs_hdrs. reflexivity.
   Qed.
 
+  (* the response-code gate, end to end: the 12-bit code is the header nibble extended by the first
+     OPT record among the records behind the answer section (authority and additional, any position);
+     a code other than NOERROR is reported as BadResponseCode with exactly that value *)
+  Theorem from_msg_rcode_gate_sem : sem_rcode <> 0 -> from_msg msg ty = Err (BadResponseCode sem_rcode).
+  Proof.
+    intro Hne.
+    destruct (message_parsed msg 1 an ns ar [q] rs e1 e2 Hlen H12 Hq Hr eq_refl Hcnt ltac:(lia) Ban Bns Bar)
+      as (qends & rends & Hp & L1 & L2 & Sq & Sr).
+    destruct qends as [|qe qends]; [cbn in L1; discriminate|].
+    destruct (from_msg_spec msg 1 an ns ar _ _ e1 e2 Hp L1 L2 h Hrh Hh ty (qitem 12 q qe) eq_refl eq_refl Hqr Htc) as (r4 & Hw4 & E).
+    rewrite E, (the_rcode_sem rends Sr). assert (En : negb (sem_rcode =? 0) = true) by lia. rewrite En. reflexivity.
+  Qed.
+
   (* records of the requested type stand at the end of the chain: exactly they are returned, under
      the name the chain ends at *)
   Theorem from_msg_follows_chain rends pn t os' x xs :
     rstands msg e1 rs rends ->
     schain 12 qtext (precs (N.to_nat an) e1 rs rends 0) pn t os' ->
-    filter (smatch ty t) os' = x :: xs -> flag_rcode (h_flags h) = 0 ->
+    filter (smatch ty t) os' = x :: xs -> sem_rcode = 0 ->
     from_msg msg ty = Ok (mkRRset t (sq_class q) (fold_left N.min (map pttl (x :: xs)) 4294967295) (map pval (x :: xs))).
   Proof.
     intros Sr Hch Hhits Hrc0. destruct (from_msg_is_sem_chase rends Sr Hrc0) as (r4 & Hw4 & E). rewrite E. cbv zeta.
     set (os0 := precs (N.to_nat an) e1 rs rends 0) in *.
-    assert (Hs0 : Forall pstands os0) by (apply precs_stand; exact Sr).
+    assert (Hs0 : Forall pstands os0) by (apply precs_stand; [exact Sr|exact Htyped]).
     destruct (schain_ok r4 Hw4 _ _ _ _ _ _ Hch qname_decodes Hs0) as (Hck & Hdec & Hs').
     pose proof (filter_at pn t ty os' Hdec Hs') as Hfl.
     destruct (data_at r4 Hw4 t os' Hs') as [Hd1 Hd2]. rewrite Hhits in Hd1, Hd2, Hfl.
@@ -415,12 +448,12 @@ Section E.
   Theorem from_msg_chain_noanswer rends pn t os' :
     rstands msg e1 rs rends ->
     schain 12 qtext (precs (N.to_nat an) e1 rs rends 0) pn t os' ->
-    filter (smatch ty t) os' = [] -> Forall (fun o => smatch T_CNAME t o = false) os' -> flag_rcode (h_flags h) = 0 ->
+    filter (smatch ty t) os' = [] -> Forall (fun o => smatch T_CNAME t o = false) os' -> sem_rcode = 0 ->
     from_msg msg ty = Err NoAnswer.
   Proof.
     intros Sr Hch Hnone Hnoc Hrc0. destruct (from_msg_is_sem_chase rends Sr Hrc0) as (r4 & Hw4 & E). rewrite E. cbv zeta.
     set (os0 := precs (N.to_nat an) e1 rs rends 0) in *.
-    assert (Hs0 : Forall pstands os0) by (apply precs_stand; exact Sr).
+    assert (Hs0 : Forall pstands os0) by (apply precs_stand; [exact Sr|exact Htyped]).
     destruct (schain_ok r4 Hw4 _ _ _ _ _ _ Hch qname_decodes Hs0) as (Hck & Hdec & Hs').
     pose proof (filter_at pn t ty os' Hdec Hs') as Hfl. rewrite Hnone in Hfl.
     pose proof (live_le_length (map phdr os0)) as Hlive.
@@ -438,11 +471,12 @@ Lemma example_end_to_end :
   from_msg example_msg T_A = Ok (mkRRset [x61; x2e] 1 60 [RD_A 16909060]).
 Proof.
   destruct example_stands as (Hq & Hr & Hl).
-  pose proof (from_msg_direct_answers example_msg (mkSQ [(12, [x61])] 1 1) [mkSR [(12, [x61])] 1 1 60 (A_A 16909060)]
+  pose proof (from_msg_direct_answers example_msg (mkSQ [(12, [x61])] 1 1) [mkSR [(12, [x61])] 1 1 60 (SVal (A_A 16909060))]
                 1 0 0 19 35 (mkHeader 4660 33152 1 1 0 0) T_A
                 ltac:(rewrite Hl; lia) ltac:(rewrite Hl; lia) Hq Hr eq_refl ltac:(lia) ltac:(lia) ltac:(lia)
                 ltac:(vm_compute; reflexivity) ltac:(repeat split) ltac:(vm_compute; reflexivity) ltac:(vm_compute; reflexivity)
-                (mkSR [(12, [x61])] 1 1 60 (A_A 16909060)) [] ltac:(vm_compute; reflexivity) ltac:(vm_compute; reflexivity)) as E.
+                ltac:(repeat constructor)
+                (mkSR [(12, [x61])] 1 1 60 (SVal (A_A 16909060))) [] ltac:(vm_compute; reflexivity) ltac:(vm_compute; reflexivity)) as E.
   rewrite E. vm_compute. reflexivity.
 Qed.
 
@@ -458,8 +492,8 @@ Lemma example_chain_end_to_end :
   from_msg example_chain_msg T_A = Ok (mkRRset [x62; x2e] 1 30 [RD_A 84281096]).
 Proof.
   set (q := mkSQ [(12, [x61])] 1 1).
-  set (r1 := mkSR [(12, [x61])] 5 1 60 (A_Name 5 [[x62]])).
-  set (r2 := mkSR [(34, [x62])] 1 1 30 (A_A 84281096)).
+  set (r1 := mkSR [(12, [x61])] 5 1 60 (SVal (A_Name 5 [[x62]]))).
+  set (r2 := mkSR [(34, [x62])] 1 1 30 (SVal (A_A 84281096))).
   assert (Hn : forall p ls r, spec_name example_chain_msg p = SAccept ls r ->
              Forall (fun l => label_ok (snd l) = true) ls -> wire_len (map snd ls) <= 255 -> name_stands example_chain_msg p ls r).
   { intros p ls r E H1 H2. apply spec_name_accept_iff in E. destruct E as [E1 E2]. split; [exact E1|]. split; [exact E2|]. split; assumption. }
@@ -477,13 +511,40 @@ Proof.
   pose proof (from_msg_follows_chain example_chain_msg q [r1; r2] 2 0 0 19 51 (mkHeader 4660 33152 1 2 0 0) T_A
                 ltac:(vm_compute; discriminate) ltac:(vm_compute; discriminate) Hq Hr eq_refl ltac:(lia) ltac:(lia) ltac:(lia)
                 ltac:(vm_compute; reflexivity) ltac:(repeat split) ltac:(vm_compute; reflexivity) ltac:(vm_compute; reflexivity)
+                ltac:(repeat constructor)
                 [34; 51] 31 [x62; x2e] [None; Some (34, r2, 51, 1)] (Some (34, r2, 51, 1)) []) as E.
   rewrite E; [vm_compute; reflexivity| | | |].
   - cbn [rstands]. split; [exact S1|]. split; [exact S2|exact I].
   - cbn [precs N.to_nat Pos.to_nat Pos.iter_op Nat.add].
     apply (sc_hop q T_A 12 _ [] 19 r1 34 0 [Some (34, r2, 51, 0 + 1)] [[x62]] 31 [x62; x2e] [None; Some (34, r2, 51, 1)]);
       [vm_compute; reflexivity|constructor|vm_compute; reflexivity|reflexivity|].
-    cbn [app]. change (34 - lenN (rdata_enc (sr_data r1))) with 31. change (join_labels [[x62]]) with [x62; x2e]. change (0 + 1) with 1. constructor.
+    cbn [app]. change (34 - lenN (sdata_enc (sr_data r1))) with 31. change (join_labels [[x62]]) with [x62; x2e]. change (0 + 1) with 1. constructor.
   - vm_compute. reflexivity.
   - vm_compute. reflexivity.
+Qed.
+
+(* non-vacuity of the response-code gate: header RCODE 0, no answers, and an OPT record in the
+   additional section whose TTL carries extension octet 1: the 12-bit code is 16 (BADVERS) *)
+Definition example_opt_msg : list byte :=
+  [x12;x34;x81;x80;x00;x01;x00;x00;x00;x00;x00;x01;
+   x01;x61;x00; x00;x01; x00;x01;
+   x00; x00;x29; x10;x00; x01;x00;x00;x00; x00;x00].
+
+Lemma example_rcode_gate : from_msg example_opt_msg T_A = Err (BadResponseCode 16).
+Proof.
+  set (q := mkSQ [(12, [x61])] 1 1).
+  set (o := mkSR [] 41 4096 16777216 (SRaw [])).
+  assert (Hn : forall p ls r, spec_name example_opt_msg p = SAccept ls r ->
+             Forall (fun l => label_ok (snd l) = true) ls -> wire_len (map snd ls) <= 255 -> name_stands example_opt_msg p ls r).
+  { intros p ls r E H1 H2. apply spec_name_accept_iff in E. destruct E as [E1 E2]. split; [exact E1|]. split; [exact E2|]. split; assumption. }
+  assert (Hq : questions_stand example_opt_msg 12 [q] 19).
+  { eapply qs_cons; [|constructor]. exists 15, (firstn 15 example_opt_msg), (skipn 19 example_opt_msg).
+    split; [apply Hn; [vm_compute; reflexivity|repeat constructor|vm_compute; discriminate]|]. repeat (split; [reflexivity|]). reflexivity. }
+  assert (Hr : records_stand example_opt_msg 19 [o] 30).
+  { eapply rs_cons; [|constructor]. exists 20, (firstn 20 example_opt_msg), [].
+    split; [apply Hn; [vm_compute; reflexivity|constructor|vm_compute; discriminate]|]. repeat (split; [reflexivity|]). reflexivity. }
+  pose proof (from_msg_rcode_gate_sem example_opt_msg q [o] 0 0 1 19 30 (mkHeader 4660 33152 1 0 0 1) T_A
+                ltac:(vm_compute; discriminate) ltac:(vm_compute; discriminate) Hq Hr eq_refl ltac:(lia) ltac:(lia) ltac:(lia)
+                ltac:(vm_compute; reflexivity) ltac:(repeat split) ltac:(vm_compute; reflexivity) ltac:(vm_compute; reflexivity)) as E.
+  rewrite E; [vm_compute; reflexivity|vm_compute; discriminate].
 Qed.
